@@ -178,10 +178,11 @@ func handleOpen(h *Handler, iq openIQ, e xmlstream.Encoder) error {
 	// A session id that is in use cannot be opened a second time: accepting
 	// the request would replace the live stream in the routing table and cut
 	// its reader off from the rest of its data.
-	h.mu.Lock()
-	_, inUse := h.streams[iq.Open.SID]
-	h.mu.Unlock()
-	if inUse {
+	// The stream is registered before the request is answered, in one step
+	// with the test: otherwise a local Open under the same session id could
+	// take the slot after the peer has been told that its stream was accepted.
+	conn := newConn(h, l.s, iq, true, MaxBufferSize)
+	if !h.addStream(iq.Open.SID, conn) {
 		_, err := xmlstream.Copy(e, iq.Error(stanza.Error{
 			Type:      stanza.Cancel,
 			Condition: stanza.Conflict,
@@ -190,10 +191,9 @@ func handleOpen(h *Handler, iq openIQ, e xmlstream.Encoder) error {
 	}
 	_, err := xmlstream.Copy(e, iq.Result(nil))
 	if err != nil {
+		h.rmStream(iq.Open.SID)
 		return err
 	}
-	conn := newConn(h, l.s, iq, true, MaxBufferSize)
-	h.addStream(iq.Open.SID, conn)
 
 	l.eLock.Lock()
 	defer l.eLock.Unlock()
